@@ -738,6 +738,8 @@ class UnionT(Node):
     def accept(self, d, strict):
         if isinstance(d, cabc.Iterator):
             return UNS   # a one-shot iterator is consumed by the first case that tries it: the docs do not speak about it
+        if self.kind == "Optional" and d is None:
+            return acc(None)   # Optional[T]: None stays None in every mode, even where the laxer loader of T would take None (str(None), bool(None))
         vs = [c.accept(d, strict) for c in self.children]
         if any(v.k == U for v in vs):
             return UNS
